@@ -1232,44 +1232,58 @@ package mq
 //@   ensures result.fixed == 16                                                            #C02
 
 //@ func NewConnAck
+//@   inline
 //@   ensures result != nil && fresh(result) && result.fixed == 32                          #C02
 
 //@ func NewPubAck
+//@   inline
 //@   ensures result != nil && fresh(result) && result.fixed == 64                          #C02
 
 //@ func NewPubRec
+//@   inline
 //@   ensures result != nil && fresh(result) && result.fixed == 80                          #C02
 
 //@ func NewPubRel
+//@   inline
 //@   ensures result != nil && fresh(result) && result.fixed == 98                          #C02
 
 //@ func NewPubComp
+//@   inline
 //@   ensures result != nil && fresh(result) && result.fixed == 112                          #C02
 
 //@ func NewSubscribe
+//@   inline
 //@   ensures result != nil && fresh(result) && result.fixed == 130                          #C02
 
 //@ func NewSubAck
+//@   inline
 //@   ensures result != nil && fresh(result) && result.fixed == 144                          #C02
 
 //@ func NewUnsubscribe
+//@   inline
 //@   ensures result != nil && fresh(result) && result.fixed == 162                          #C02
 
 //@ func NewUnsubAck
+//@   inline
 //@   ensures result != nil && fresh(result) && result.fixed == 176                          #C02
 
 //@ func NewPingReq
+//@   inline
 //@   ensures result != nil && fresh(result) && result.fixed == 192                          #C02
 
 //@ func NewPingResp
+//@   inline
 //@   ensures result != nil && fresh(result) && result.fixed == 208                          #C02
 
 //@ func NewDisconnect
+//@   inline
 //@   ensures result != nil && fresh(result) && result.fixed == 224                          #C02
 
 //@ func NewAuth
+//@   inline
 //@   ensures result != nil && fresh(result) && result.fixed == 240                          #C02
 
 //@ func NewPublish
+//@   inline
 //@   ensures result != nil && fresh(result) && (result.fixed & 240) == 48                   #C02
 
